@@ -190,6 +190,26 @@ theorem cleared_name_is_canonical_id (ops : List Op) (hid : ∀ op ∈ ops, Cano
   simp only [upd_same]
   exact ids_canonical_after_any_history ops hid x hx
 
+/-- The hypothesis of `names_never_empty` is not an assumption about the caller: a history whose
+    id texts are canonical (as every constructor and accepted `new_id` call produces them) has
+    non-empty names and ids throughout. -/
+theorem names_never_empty_of_canonical (ops : List Op) (hid : ∀ op ∈ ops, CanonOp op) :
+    NamesNE (run empty ops) := by
+  apply names_never_empty
+  intro op hop
+  have hne : ∀ s : String, Py.Uuid.Canonical s.toList → s ≠ "" := by
+    intro s hc he
+    subst he
+    exact Py.Uuid.canonical_ne_nil hc rfl
+  have h := hid op hop
+  cases op with
+  | construct k name id parent argsOk => exact hne id h
+  | newId x idText =>
+    cases idText with
+    | none => exact trivial
+    | some s => exact hne s h
+  | _ => exact trivial
+
 /-! ## Non-vacuity -/
 
 open Py.Uuid in
